@@ -58,14 +58,16 @@ class C16(Config):
               "Local Open Scope Z_scope.")
     bin = "c16"
     release_too = True
-    n_tags = 20
+    n_tags = 26
     classes = {}
     shard_size = 500
     rule = ("plan_denominations on an exhaustive lattice around every 1-2-5 denomination (+-1, +buffer, +fee) and on "
             "structured/random balances in [0, MAX_MONEY], caps 1..64, note counts {0,1,2,3,50,usize::MAX}, buffers and fees "
             "from a boundary set, under 7 oracle families (stub, constant/refusing, refuse-above-k, affine over-charge, "
             "by-length table, stateful by-call table, value-dependent) incl. answers up to usize::MAX; every case planned "
-            "under two RNG seeds; plus largest_one_two_five, is_canonical_denomination and from_stored_parts lattices. "
+            "under two RNG seeds; the same lattice around every 1-2-5 value OUTSIDE [0.01, 10 000] ZEC up to MAX_MONEY; "
+            "engine::plan_migration_with over ~650 wallets (exact-funding notes, fragmented, whale, dust) with the real "
+            "preparation planner as oracle; plus largest_one_two_five, is_canonical_denomination and from_stored_parts lattices. "
             "distinct = distinct case lines; non-trivial = every line is an executed public API call with its outcome")
     trusted_base = [
         "Coq 8.16.1 kernel, vm_compute (no native_compute)",
@@ -81,7 +83,7 @@ class C16(Config):
         "RNG independence is tied by running every case under two ChaCha8 seeds (the model has no RNG argument at all)",
     ]
     partial_clauses = [
-        "engine::plan_migration preview is not driven (only denomination::plan_denominations, the function it calls)",
+        "engine::plan_migration_with is driven (MockBackend wallets, default portfolio) but the real preparation planner is not modelled: its outcomes are compared with the model under the oracle that refuses every layout except the kept one; scheduling/anchor parts of the MigrationPlan belong to C17",
         "CanonicalOneTwoFive::new with non-normative bounds is modelled (strategy record) but theorems and cases cover the ZIP 318 bounds used by plan_denominations/with_max_notes/recommended",
     ]
 
